@@ -423,8 +423,13 @@ def run_one(unit, run, workdir, tier='quick', keep=False, extra_flags='', trace_
         res['status'] = 'loop-contract-dropped'
         return res
     if res['canary'] == 'UNREACHABLE':
-        res['status'] = 'vacuous'
-        return res
+        # the end of the harness is cut off (typically a loop that no longer terminates within the bound).  Obligations
+        # that FAILED other than unwinding assertions were still violated on a feasible, in-bound path: report those.
+        real = [p for p in failed if '.unwind.' not in p['id'] and 'unwinding assertion' not in p['desc']]
+        if not real:
+            res['status'] = 'vacuous'
+            return res
+        failed = res['failed'] = real
     res['status'] = 'failed' if failed else 'ok'
     if failed and trace_failed:
         # get a trace for the first failed obligation
